@@ -716,16 +716,17 @@ struct Exec {
                                      uint32_t(TypeId::kFloat64), uint32_t(TypeId::kInt32x4), uint32_t(TypeId::kFloat64x4), uint32_t(TypeId::kInt8x64), uint32_t(TypeId::kIntPtr)};
       t = tys[r.below(10)];
       size_t sz = size_of_type(t); if (!sz) sz = 1;
-      switch (r.below(6)) {
-        case 0: cnt = SIZE_MAX / sz; break;
-        case 1: cnt = SIZE_MAX / sz + 1; break;
-        case 2: cnt = SIZE_MAX / sz + 2; break;                      // wraps to about one item
-        case 3: cnt = (size_t(1) << 63) / sz - 1; break;
-        case 4: cnt = (size_t(1) << 63) / sz + 1; break;
-        default: cnt = SIZE_MAX / sz + 1 + r.below(4); break;
-      }
+      // only requests whose exact size is >= 2^64 (the product wraps): sizes in [2^31, 2^64) would exercise buffer growth
+      // with astronomic sizes, which is allocation-failure territory (C15), not argument validation
       static const size_t reps[] = {1, 1, 2, SIZE_MAX / 2 + 1};
       rep = reps[r.below(4)];
+      switch (r.below(4)) {
+        case 0: cnt = SIZE_MAX / sz + 1; break;
+        case 1: cnt = SIZE_MAX / sz + 2; break;                      // wraps to about one item
+        case 2: cnt = SIZE_MAX / sz + 1 + r.below(4); break;
+        default: cnt = SIZE_MAX / sz; rep = r.chance(1, 2) ? 2 : SIZE_MAX / 2 + 1; break;
+      }
+      if ((((unsigned __int128)cnt * sz * rep) >> 64) == 0) { cnt = SIZE_MAX / sz + 2; }
     }
     // exact size of the request as integers (no wrap): ew = 1 when it does not fit 2^31 (then an accepted call is wrong)
     size_t sz = size_of_type(t);
